@@ -166,12 +166,14 @@ def main():
         tot["funcs"].update(res.get("func_names") or [])
         for k, v in (res.get("stubs") or {}).items():
             tot["stubs"][k] = tot["stubs"].get(k, 0) + v
-        for s in (res.get("samples") or [])[:2]:
+        for s in (res.get("samples") or [])[:3]:
             tot["samples"].append({"harness": run["harness"], **s})
         runs_ev.append({"harness": run["harness"], "params": params, "paths": res["paths"],
                         "infeasible_or_assumed_away": res["aborted"], "queries": q,
                         "covers": res.get("covers"), "max_decisions": res.get("max_decisions"),
                         "inconclusive_feasibility_queries_branch_kept": res.get("inconclusive_feasibility_kept", 0),
+                        "fallback_solver_queries": res.get("fallback_queries", 0),
+                        "engine_args": run.get("args", []),
                         "solver_time_s": round(res["solver_time_s"], 2),
                         "wall_s": round(time.time() - t1, 2),
                         "crosscheck": xc,
@@ -215,12 +217,12 @@ def main():
                     "distinct_nontrivial = distinct feasible complete paths of the harnesses whose path "
                     "condition contains at least one solver-decided symbolic decision; each path stands "
                     "for every input satisfying its path condition",
-            "samples": tot["samples"][:6] or [{"note": "no sample"}],
+            "samples": tot["samples"][:12] or [{"note": "no sample"}],
             "paths_explored": tot["paths"],
             "runs": runs_ev,
             "functions_encoded": sorted(tot["funcs"]),
             "stubs_hit": tot["stubs"],
-            "solver": "z3 4.8.12 over one pipe per worker; bit-vector encoding",
+            "solver": "one long-lived solver process per worker over a pipe; z3 4.8.12 with the bit-vector encoding unless a run's engine_args say otherwise (-int = integer encoding, -solver/-fallback = portfolio)",
             "solver_time_s": round(tot["solver_s"], 2),
             "bounds": spec.get("bounds", {}).get(tier, ""),
             "outside_claim": spec.get("outside", ""),
